@@ -32,6 +32,11 @@ def make_copy():
 
 def run_demo(demo, root):
     env = dict(os.environ, PYTHONPATH=root, MPLBACKEND="Agg", PYTHONDONTWRITEBYTECODE="1")
+    # the demonstrations were written at <worktree>/SEEDED/<A|B>/demo.py; some find the datasets
+    # relative to their own location, so they are run from the same place in the scratch copy
+    place = os.path.join(root, "SEEDED", "A")
+    os.makedirs(place, exist_ok=True)
+    demo = shutil.copy(demo, os.path.join(place, "demo.py"))
     p = subprocess.run(["/venv/bin/python", "-W", "ignore", demo], cwd=root, env=env, capture_output=True, text=True, timeout=900)
     return p.returncode
 
